@@ -29,14 +29,17 @@ PROPS = {
     "C05": prop(explanation="E1: nested attribute tokens, concrete branches of SelfTy / impl params / where clause; E2: concrete type shapes, diagnostics for mod / impl"),
     "C13": prop(explanation="E1: TraitVisibility emitter; E2: requested visibility on trait and re-export, delegation-target trait visibility"),
     "C18": prop(explanation="E1: SubAttribute re-emission; E2: attribute placement on fn / trait / impl / parameters / mirrored method attributes"),
+    "C02": prop(explanation="E1: verbatim re-emission by the input.rs ToTokens impls (added as proved); E2: expansion starts with / contains the original item tokens, over enumerated module and impl bodies", e1_required=False),
     "C03": prop(explanation="only the second sentence (same call type) is decided; 'compiles' is a fact about rustc. E1: ArgumentsGenerator, trait where clause, TraitGenerics; E2: signature conversion and generics lifting over enumerated generic lists"),
     "C12": prop(explanation="E1: future_send(), opt_dot_await, contains_async_trait, AsyncTraitParams; E2: make_trait_fn_sig (Output type, Send, ?Send), async_trait detection and re-application, incl. delegation-target traits"),
     "C04": prop(explanation="E1: impl generics, where clause over all declared bounds of all trait fns, Impl path, self type, mockable(); E2: bound collection and impl assembly"),
     "C06": prop(explanation="E2: forwarding call per delegation kind, provider bound on T, fixed Sync + 'static header (E1 contracts on ImplWhereClause / DelegatingMethod are added as they are proved)", e1_required=False),
     "C07": prop(explanation="E1: ArgumentsGenerator (EntraitT first), SelfTy / where clause for impl blocks; E2: target trait generation, selector trait, inversion call, impl-block expansion", e1_required=True),
+    "C08": prop(explanation="E1: TraitVisibility (pub(super) rule), filter_pub_fn; E2: classification of module items over the item alphabet", e1_required=True),
     "C09": prop(explanation="E1: Supertraits emitter, trait where clause; E2: structural comparison of input trait and emitted trait", e1_required=True),
     "C10": prop(kani=["set_fallbacks_1", "set_fallbacks_2", "modifier_entrait", "modifier_entrait_export", "modifier_entrait_unimock", "modifier_entrait_export_unimock"], explanation="E1: option kernel, cfg_attr(test, ..) gating, emptiness of the unimock params; E3: set_fallbacks; E2: attribute selection over the full option lattice"),
     "C11": prop(explanation="E1: exact unimock attribute parameters incl. unmock_with entries"),
+    "C15": prop(explanation="partial: E1 proves panic-freedom and the specific Err of the functions under contract; E2 replays the documented misuses, odd items, malformed option lists and parameter patterns (no panic, output re-parses)", e1_required=False),
     "C16": prop(level="other", e1=False, e1_required=False, explanation="bounded only: fix_fn_param_idents is string / HashSet / visit_mut code outside Verus' reach; the contract is evaluated exhaustively to the property's own small-scope bound"),
     "C17": prop(kani=["set_fallbacks_1", "set_fallbacks_2", "modifier_entrait", "modifier_entrait_export", "modifier_entrait_unimock", "modifier_entrait_export_unimock"], explanation="E1: option accessors (defaults of the table); E3: set_fallbacks; E2: parsers - bare = true, false = absent, order independence, accepted sets, macro variants as shorthands"),
     "C19": prop(explanation="E1: absolute paths of every emitter under contract"),
